@@ -18,8 +18,9 @@ What the code does (and the model mirrors, statement by statement):
   `error_dot = ctrl_dot - actuator_velocity` (`ctrl_dot = 0` for dyntype none, else the native `act_dot`),
   `integral = clip(state.integral + error*dt, ±i_max)` (0 when `ki == 0`).
 * the engine then advances *every* activation of the actuator with `mj_nextActivation`: Euler
-  `act + act_dot*dt`, except that for dyntype filterexact it uses `act + act_dot*tau*(1-exp(-dt/tau))` — also for the
-  two plugin-owned slots (see Props/C51: the tracking theorems need the Euler rule).
+  `act + act_dot*dt`, except that for dyntype filterexact it uses `act + act_dot*tau*(1-exp(-dt/tau))` — in the
+  tree as it stands also for the two plugin-owned slots (`Cfg.ownExact`, measured on the real function by the
+  harness; see Props/C51: the tracking theorems need the Euler rule for the owned slots).
 Not modelled: `actlimited` (never generated), the RK4 integrator (it integrates `act` through its own stages),
 several actuators sharing one plugin instance (each is handled independently by the same code).
 -/
@@ -46,6 +47,11 @@ structure Cfg (α : Type) where
   early : Bool
   /-- `actuator_ctrlrange` when `ctrllimited` -/
   clim : Option (α × α)
+  /-- how `mj_nextActivation` of the tree advances the *plugin-owned* slots of a filterexact actuator: `true` = with the
+  exact-filter formula like the native activation (what the code does: its filterexact branch does not look at the
+  slot index), `false` = Euler.  The harness measures it by calling the real `mj_nextActivation` on such a slot and
+  passes it on every line; irrelevant for the other dyntypes. -/
+  ownExact : Bool
 
 /-- the plugin-owned activations (a slot that does not exist is carried as 0 and never read) -/
 structure St (α : Type) where
@@ -79,21 +85,16 @@ def clip (x lo hi : α) : α := if x < lo then lo else if hi < x then hi else x
 
 /-- `PidConfig::FromModel` + the checks of `Pid::Create` (`none` = creation fails) -/
 def create? (kp ki kd : α) (imaxAttr slewAttr : Option α) (dt : α) (dyn : Dyn) (tau : α) (early : Bool)
-    (clim : Option (α × α)) : Option (Cfg α) :=
+    (clim : Option (α × α)) (ownExact : Bool := true) : Option (Cfg α) :=
   let imax : Option α := match imaxAttr with
     | some f => if MjNum.beq ki (MjNum.ofInt 0) then none else some (f / ki)
     | none => none
   let badI : Bool := match imax with | some m => decide (m < MjNum.ofInt 0) | none => false
   let badS : Bool := match slewAttr with | some r => decide (r < MjNum.ofInt 0) | none => false
-  if badI || badS then none else some { kp, ki, kd, imax, slew := slewAttr, dt, dyn, tau, early, clim }
+  if badI || badS then none else some { kp, ki, kd, imax, slew := slewAttr, dt, dyn, tau, early, clim, ownExact }
 
 /-- `if (config_.i_gain)` -/
 def hasI (c : Cfg α) : Bool := !MjNum.beq c.ki (MjNum.ofInt 0)
-
-/-- `tau * (1 - exp(-dt/tau))` with `tau = max(mjMINVAL, dynprm[0])` -/
-def exactStep (c : Cfg α) : α :=
-  let tau := MjNum.max (MjNum.ofSci 1 true 15) c.tau
-  tau * (MjNum.ofInt 1 - MjNum.exp ((-c.dt) / tau))
 
 /-- `mj_nextActivation` / the plugin's `NextActivation` without actrange clamp -/
 def nextAct (c : Cfg α) (act actdot : α) : α :=
@@ -102,6 +103,10 @@ def nextAct (c : Cfg α) (act actdot : α) : α :=
     let tau := MjNum.max (MjNum.ofSci 1 true 15) c.tau
     act + actdot * tau * (MjNum.ofInt 1 - MjNum.exp ((-c.dt) / tau))
   | _ => act + actdot * c.dt
+
+/-- `mj_nextActivation` applied by `mj_advance` to a plugin-owned slot -/
+def nextOwn (c : Cfg α) (act actdot : α) : α :=
+  if c.dyn = Dyn.filterexact ∧ c.ownExact = true then nextAct c act actdot else act + actdot * c.dt
 
 /-- `GetState(...).previous_ctrl_exists` -/
 def prevExists (i : In α) : Bool := decide (MjNum.ofInt 0 < i.time)
@@ -148,8 +153,8 @@ def step (c : Cfg α) (s : St α) (i : In α) : Out α :=
   { force := force c s i
     actdotI := actdotI
     actdotP := actdotP
-    next := { actI := if hasI c then nextAct c s.actI actdotI else s.actI
-              actP := match c.slew with | some _ => nextAct c s.actP actdotP | none => s.actP } }
+    next := { actI := if hasI c then nextOwn c s.actI actdotI else s.actI
+              actP := match c.slew with | some _ => nextOwn c s.actP actdotP | none => s.actP } }
 
 /-- a whole control sequence from a given state: the outputs of every step -/
 def runSeq (c : Cfg α) : St α → List (In α) → List (Out α)
